@@ -21,6 +21,20 @@ def run_config(ctx, binary, n, seed, profile, schema_line=None):
     return [l for l in so.split("\n") if l]
 
 
+def run_corpus(ctx, binary, prop):
+    """minimised past failures and directed shapes run first"""
+    import glob, os
+    cases = []
+    for f in sorted(glob.glob(os.path.join(vf.VERIF, "corpus", prop, "*.jsonl"))):
+        cases += [l for l in open(f).read().split("\n") if l.strip()]
+    if not cases:
+        return []
+    rc, so, se = vf.sh([binary, "-mode", "run"], inp="\n".join(cases) + "\n", timeout=600)
+    if rc != 0:
+        raise RuntimeError("corpus run failed rc=%s: %s" % (rc, se[-3000:]))
+    return [l for l in so.split("\n") if l]
+
+
 def schema_of(binary):
     rc, so, se = vf.sh([binary, "-mode", "schema"], timeout=120)
     if rc != 0:
@@ -98,7 +112,7 @@ def run(ctx):
                            "replay": "api.Generate + go build of probe schema go/probes/exec with config %s" % cfg})
             continue
         schema = schema_of(b)
-        lines = run_config(ctx, b, n, ctx.seed, "c01")
+        lines = run_corpus(ctx, b, "C01") + run_config(ctx, b, n, ctx.seed, "c01")
         model = ctx.driver("c01", [schema] + lines)
         ok = 0
         for l, m in zip(lines, model):
@@ -143,11 +157,17 @@ def run(ctx):
                                 "data": p["data"], "errors": p["errors"], "invocations": len(r["log"])})
         per_cfg[cfg] = {"cases": len(lines), "corresponding": ok}
 
-    for cfg, r, mj, why in divs[:40]:
+    for cfg, r, mj, why in divs:
+        if len(ctx.violations) >= 20:
+            break
         spec_bad = [w for w in why if w.startswith("spec:")]
         shape = {"why": ",".join(sorted(w.split(":")[0] for w in why))}
-        if spec_bad:
-            shape = {"spec": spec_bad[0][5:]}
+        if spec_bad and isinstance(mj, dict):
+            # F01's shape: the only disagreement with the Spec is a response key collected twice
+            # under unrelated type conditions
+            shape = {"spec_disagrees": True, "duplicate_keys": not mj.get("wf"),
+                     "dups_only_under_unrelated_type_conditions": bool(mj.get("dupsUnrelated")) and not mj.get("wf"),
+                     "corresponds_to_impl_model": len(why) == len(spec_bad)}
         rep = {"kind": "spec-violation" if spec_bad else "correspondence", "config": cfg, "why": why, "query": r["query"],
                "variables": r.get("variables"), "plan": r.get("plan"),
                "impl": r["payloads"], "model": mj, "shape": shape,
